@@ -252,9 +252,6 @@ def install_send(e):
     def havoc_wire(c, a, old, k):
         c.ghost["wire"] = c.fresh("bytes", "wire")
         c.ghost["tx_calls"] = c.fresh("int", "tx_calls")
-    e.add(Contract("ext:dispatcher.send", assumed=True, result=lambda c, a: e.contracts["ext:sock.send"].result(c, dict(a, **{"$args": a["$args"][1:]})),
-                   havoc=lambda c, a, old, k: None, raises=[(OSError, None, lambda c, old, a, exc: True)],
-                   doc="custom dispatcher send(sock, data): like the transport's send (all-or-part of data appended to the wire)"))
     e.add(Contract(K + "WebSocket._send", cases=[("builtin", _send_case(None)), ("builtin-dispatcher", _send_case("builtin-dispatcher")),
                                                  ("external-dispatcher", _send_case("external-dispatcher"))],
                    requires=lambda c, a: z3.BoolVal(lock_ok(c, a["self"], "lock") and tag_of(a["data"]) == "bytes"),
